@@ -42,7 +42,7 @@ def bounds(tier):
     return {"max_iter (interleavings)": [0, 1, 2, 3] + ([5] if tier == "thorough" else []),
             "word length": "<= 2*max_iter+4, <= max_iter+2 updates",
             "solvers": sorted(FACTORIES), "apps": sorted(APPS),
-            "early-stop scan": "GradientMethod box/l1 family (%d instances), PDHG l1/box x sigma in {1,0.1,0.01} zero init, CG, Newton, LLS apps, L2ConstrainedMinimization; max_iter 80" % len(list(gm_family())),
+            "early-stop scan": "GradientMethod box/l1 family (%d instances), PDHG {l1,box} x sigma in {1,0.1,0.01} x theta in {1,0.5,0} x dual prox in {quadratic, l1-conjugate} zero init, CG, Newton, LLS apps, L2ConstrainedMinimization; max_iter 80" % len(list(gm_family())),
             "power method": "C12 spectra x {I, householder, dft} x 3 starts, n <= 6, 30 updates"}
 
 
@@ -81,16 +81,23 @@ def f_cg(mi):
     return alg, lambda: [x], lambda: alg.not_positive_definite
 
 
-def f_pdhg(mi, prox="l1", sigma=0.1):
+def f_pdhg(mi, prox="l1", sigma=0.1, theta=1, fc="l2"):
     import sigpy as sp
     A = _A(3, 3)
     y = A @ np.array([1.0, 0.0, -0.5]) + 0.1
     nrm = np.linalg.norm(A, 2)
     tau = 1.0 / (sigma * nrm ** 2)
     x, u = np.zeros(3), np.zeros(4)
-    P = {"l1": sp.prox.L1Reg([3], 0.3), "box": sp.prox.BoxConstraint([3], -0.2, 0.6)}[prox]
-    alg = sp.alg.PrimalDualHybridGradient(sp.prox.L2Reg([4], 1, y=-y), P, lambda v: A @ v, lambda v: A.T @ v,
-                                          x, u, tau, sigma, max_iter=mi, tol=0)
+    if fc == "l2":
+        # f(z) = 1/2 ||z - y||^2
+        P = {"l1": sp.prox.L1Reg([3], 0.3), "box": sp.prox.BoxConstraint([3], -0.2, 0.6)}[prox]
+        Fc = sp.prox.L2Reg([4], 1, y=-y)
+    else:
+        # f(z) = lam ||z||_1 (dual variable lives in a box and can stall while x moves), g(x) = 1/2 ||x - c||^2
+        Fc = sp.prox.Conj(sp.prox.L1Reg([4], 0.5))
+        P = sp.prox.L2Reg([3], 1, y=np.array([1.0, -2.0, 0.5]))
+    alg = sp.alg.PrimalDualHybridGradient(Fc, P, lambda v: A @ v, lambda v: A.T @ v,
+                                          x, u, tau, sigma, theta=theta, max_iter=mi, tol=0)
     return alg, lambda: [x, u], lambda: False
 
 
@@ -185,6 +192,7 @@ FACTORIES = {
     "ConjugateGradient": f_cg,
     "PrimalDualHybridGradient": lambda mi: f_pdhg(mi, "l1", 0.1),
     "PrimalDualHybridGradient.box": lambda mi: f_pdhg(mi, "box", 1.0),
+    "PrimalDualHybridGradient.theta0.l1dual": lambda mi: f_pdhg(mi, "l1", 0.5, theta=0, fc="l1"),
     "AltMin": f_altmin,
     "AugmentedLagrangianMethod": f_alm,
     "ADMM": f_admm,
@@ -263,7 +271,9 @@ def gen_cases(tier, seed):
         cases.append(dict(kind="early-gm", **g))
     for prox in ("l1", "box"):
         for sigma in (1.0, 0.1, 0.01):
-            cases.append(dict(kind="early-alg", solver="pdhg", prox=prox, sigma=sigma))
+            for theta in (1, 0.5, 0):
+                for fc in ("l2", "l1"):
+                    cases.append(dict(kind="early-alg", solver="pdhg", prox=prox, sigma=sigma, theta=theta, fc=fc))
     for name in ("ConjugateGradient", "NewtonsMethod", "GradientMethod", "GradientMethod.accel.box", "GradientMethod.plain",
                  "AltMin", "ADMM", "AugmentedLagrangianMethod", "GerchbergSaxton", "PowerMethod"):
         cases.append(dict(kind="early-alg", solver=name))
@@ -436,7 +446,7 @@ def run_early_gm(case):
 def run_early_alg(case):
     viol = []
     if case["solver"] == "pdhg":
-        build = lambda K: f_pdhg(K, case["prox"], case["sigma"])  # noqa
+        build = lambda K: f_pdhg(K, case["prox"], case["sigma"], case.get("theta", 1), case.get("fc", "l2"))  # noqa
         site, when = "alg.PrimalDualHybridGradient", "early stop, primal stalled"
     else:
         build = FACTORIES[case["solver"]]
